@@ -19,7 +19,7 @@ import (
 func main() { hx.Main(run) }
 
 func run(c *hx.Ctx) {
-	c.Imports = "Enc.Run"
+	c.Imports = "Enc.Model Enc.Run"
 	c.ShardSize = 40
 	switch c.Prop {
 	case "C12":
@@ -683,6 +683,7 @@ func c26(c *hx.Ctx) {
 		}
 	}
 	c26Links(c)
+	c26Negotiation(c)
 	nRole := c.N - nSig
 	for i := 0; i < nRole; i++ {
 		a := uni[c.Rng.Intn(len(uni))]
